@@ -67,6 +67,8 @@ def keytuple(schema, item):
         v = item_get(item, name)
         if v is MISSING or tag(v) != typ:
             return None
+        if typ in ("S", "N", "B") and v[typ] == "":
+            return None          # a primary key attribute cannot be empty
         out.append(canon(v))
     return tuple(out)
 
